@@ -2,6 +2,7 @@ package main
 
 import (
 	"fmt"
+	"math/rand"
 	"sort"
 	"strings"
 
@@ -131,6 +132,9 @@ func c04(args []string) {
 			{Buf: b, Procs: 4, Sched: fmt.Sprintf("%d,300,400", rng.Intn(1<<30)), MaxTasks: mt},
 			{Buf: b + 2, Procs: 1, Sched: fmt.Sprintf("%d,500,1500", rng.Intn(1<<30)), MaxTasks: mc},
 			{Buf: 128, Procs: 2, Sched: "", MaxTasks: 8},
+			// the same graph with the (reference) outputs of a pseudo-random subset of tasks already on disk:
+			// the result must not depend on which tasks are taken from disk either
+			{Buf: b, Procs: 4, Sched: fmt.Sprintf("%d,300,400", rng.Intn(1<<30)), MaxTasks: mt, Crash: fmt.Sprintf("preexisting:%d", rng.Intn(1<<30))},
 		}
 		jobs = append(jobs, &job{s, exp, cfgs, g})
 	}
@@ -148,8 +152,31 @@ func c04(args []string) {
 	run.Parallel(len(fl), func(i int) {
 		j, k := fl[i].j, fl[i].k
 		root := c.CaseDir()
-		res := execSpec(c, root, j.s, j.cfg[k], nil, false, 0)
-		ps, hang := judgeRun(res, j.s, j.exp)
+		js, jexp, jcfg := j.s, j.exp, j.cfg[k]
+		if strings.HasPrefix(jcfg.Crash, "preexisting:") {
+			var sd int64
+			fmt.Sscanf(jcfg.Crash, "preexisting:%d", &sd)
+			jcfg.Crash = ""
+			lr := rand.New(rand.NewSource(sd))
+			js = j.s.Clone()
+			pre := sourcesOf(j.s)
+			for _, t := range j.exp.Tasks {
+				if len(t.Outs) == 0 || lr.Intn(3) != 0 {
+					continue
+				}
+				for port, p := range t.Outs {
+					js.Sources[p] = string(t.Content[port])
+					pre[p] = t.Content[port]
+				}
+			}
+			jexp = ref.Eval(&ref.Input{Spec: j.s, Files: pre})
+			if jexp.Err != "" {
+				c.Drop(root)
+				return
+			}
+		}
+		res := execSpec(c, root, js, jcfg, nil, false, 0)
+		ps, hang := judgeRun(res, js, jexp)
 		if hang != "" {
 			c.Inconclusive(fmt.Sprintf("graph %d cfg %d: %s", j.idx, k, hang))
 			c.Drop(root)
